@@ -49,6 +49,8 @@ def run(ctx):
     ctx.sample({"text": '{"b":1,"a":[ 1.0e1,"\\u0041"]}', "entry": "canon", "predicted": '{"a":[10,"A"],"b":1}'})
     n = 1500 if ctx.quick else 40000
     s = ctx.tv("fmt", "Trace_Format", {"seed": ctx.seed, "n": n, "mode": "c12"}, consts={"MaxD": 10000})
+    # the depth limit is part of "valid under those options"
+    ctx.tv("fmt", "Trace_Format", {"mode": "deep", "stride": 5 if ctx.quick else 1, "prop": "C12"}, consts={"MaxD": 10000})
     ctx.assumptions += [
         "canonical spelling of numbers with > 15 significant digits: nearest float64 and its shortest digits come from the projection (strconv), the ECMA layout from the spec",
         "equal-name ties under ReorderRawObjects+AllowDuplicateNames are ordered by the member text, as the implementation documents",
